@@ -14,16 +14,17 @@ BatchFile == JsonDeserialize(IOEnv.TRACE_FILE)
 ASSUME TLCSet(7, BatchFile)
 Batch == TLCGet(7)
 
-VARIABLES tid, l, st, verdict
-tvars == <<tid, l, st, verdict>>
+VARIABLES tid, l, st, ait, verdict
+tvars == <<tid, l, st, ait, verdict>>
 T == Batch[tid]
 
 Init == /\ tid \in 1..Len(Batch)
         /\ l = 1
-        /\ st = [gen |-> <<>>, raw |-> 0]
+        /\ st = InitImpl
+        /\ ait = -1
         /\ verdict = "ok"
 
-Prop_C13(src, o) == o.res = AbsAnswer(src, o)
+Prop_C13(src, o) == o.res = AbsAnswer(src, ait, o)
 
 Step ==
     /\ l <= Len(T.ops)
@@ -34,12 +35,13 @@ Step ==
              ELSE IF verdict = "ok" /\ r[2].gen # o.gen
                   THEN verdict' = "drift:cache:" \o o.op
                   ELSE verdict' = verdict
-          /\ st' = IF r[2].gen = o.gen THEN r[2] ELSE [gen |-> o.gen, raw |-> Len(o.gen)]
+          /\ st' = IF r[2].gen = o.gen THEN r[2] ELSE [r[2] EXCEPT !.gen = o.gen, !.raw = Len(o.gen)]
+          /\ ait' = AbsItAfter(T.src, ait, o)
     /\ l' = IF ~Prop_C13(T.src, T.ops[l]) THEN Len(T.ops) + 1 ELSE l + 1   \* stop at the first violation
     /\ tid' = tid
     /\ (l' <= Len(T.ops) \/ PrintT(<<"V", tid, verdict'>>))
 
-Empty == /\ l = 1 /\ Len(T.ops) = 0 /\ l' = 2 /\ UNCHANGED <<tid, st, verdict>>
+Empty == /\ l = 1 /\ Len(T.ops) = 0 /\ l' = 2 /\ UNCHANGED <<tid, st, ait, verdict>>
          /\ PrintT(<<"V", tid, "ok">>)
 
 Next == Step \/ Empty
